@@ -684,7 +684,7 @@ fn sweep_one(w: &mut Worker, sit: &Situation, attacker: &Peer, tier: Tier, pairs
     let mut todo: Vec<(Mutation, Option<Mutation>)> = first.iter().cloned().map(|x| (x, None)).collect();
     if pairs {
         // all ordered pairs over a thinned catalogue: the second operator is applied to the first one's result
-        let stride = if tier == Tier::Quick { 23 } else { 7 };
+        let stride = if tier == Tier::Quick { 23 } else { 11 };
         for a in first.iter().step_by(stride) {
             let seconds = mutations(&a.json, &victim, attacker, tier);
             for b in seconds.into_iter().step_by(stride) {
